@@ -142,9 +142,17 @@ if _parse_version(_np.__version__) < _MIN_NUMPY_VERSION:
 	dsl.Visit(ns, func(self dsl.Visitor, node dsl.Node) {
 		switch node := node.(type) {
 		case *dsl.NamedType:
-			if gt, ok := node.Type.(*dsl.GeneralizedType); ok && gt.Cases.IsUnion() {
-				// We use the alias name for the union type, which will be imported
-				// below.
+			// A union within a named type is generated under the alias name, which is
+			// imported above, also when it is nested (e.g. the values of a map).
+			containsUnion := false
+			dsl.Visit(node.Type, func(self dsl.Visitor, inner dsl.Node) {
+				if gt, ok := inner.(*dsl.GeneralizedType); ok && gt.Cases.IsUnion() {
+					containsUnion = true
+					return
+				}
+				self.VisitChildren(inner)
+			})
+			if containsUnion {
 				return
 			}
 		case *dsl.GeneralizedType:
